@@ -35,18 +35,42 @@ class _Zip:
         return b"x"
 
 
+def resolve(p):
+    """Lexical resolution of an absolute-or-cwd-relative path on a symlink-free file system."""
+    if not p.startswith("/"):
+        p = CWD + p
+    stack = []
+    for comp in p.split("/"):
+        if comp == "" or comp == ".":
+            continue
+        if comp == "..":
+            if stack:
+                stack.pop()
+            continue
+        stack.append(comp)
+    return "/" + "/".join(stack)
+
+
+def _model_isdir(p):
+    r = resolve(p)
+    if r == "/" or r == "/d":
+        return True
+    for d in DIRS:
+        rd = resolve(d)
+        if rd == r or rd.startswith(r + "/"):
+            return True
+    return False
+
+
 class _PathShim:
-    """os.path for the nuwiki namespace: real posixpath functions, isdir answered by the model FS."""
+    """os.path for the nuwiki namespace: real posixpath functions, isdir/exists answered by the model FS."""
 
     def __getattr__(self, name):
         return getattr(posixpath, name)
 
     @staticmethod
     def isdir(p):
-        for d in DIRS:
-            if d == p:
-                return True
-        return p in ("/", "/d", "/d/")
+        return _model_isdir(p)
 
     exists = isdir
 
@@ -59,6 +83,8 @@ class _OsShim:
     def __getattr__(self, name):
         if name in ("makedirs", "mkdir", "symlink", "link", "rename", "replace", "mknod", "open", "remove", "unlink", "rmdir"):
             def rec(p, *a, **k):
+                if name in ("makedirs", "mkdir") and _model_isdir(p) and not k.get("exist_ok"):
+                    raise FileExistsError(17, "File exists", p)
                 REC.append((name, p))
                 if name in ("makedirs", "mkdir"):
                     DIRS.append(p)
@@ -85,6 +111,10 @@ class _File:
 
 
 def _open(p, mode="r", *a, **k):
+    if p.endswith("/") or _model_isdir(p):
+        raise IsADirectoryError(21, "Is a directory", p)
+    if not _model_isdir(posixpath.dirname(p) or "."):
+        raise FileNotFoundError(2, "No such file or directory", p)
     REC.append(("open:" + mode, p))
     return _File()
 
@@ -117,15 +147,9 @@ class _PosixOsProxy:
 
 
 def inside(p) -> bool:
-    """Independent reference: is p (absolute, no symlinks) inside /d ?"""
-    if not p.startswith("/"):
-        p = CWD + p
-    if not (p == "/d" or p.startswith("/d/")):
-        return False
-    for comp in p.split("/"):
-        if comp == "..":
-            return False
-    return True
+    """Independent reference: does p (no symlinks) denote /d or something below it?"""
+    r = resolve(p)
+    return r == "/d" or r.startswith("/d/")
 
 
 def _run(names, dst):
